@@ -10,7 +10,7 @@ P=$R/src/profiler
 CC=${CC:-gcc}
 CFLAGS=${DAG_CFLAGS:--O1 -g}
 LIBSRCS="dag_recorder chronological gen_stat gen_dot gen_gpl gen_text read_dag options papi_counters"
-for comp in c18 c19; do
+for comp in ${DAG_COMPONENTS:-c18 c19}; do
   out=build/$comp
   mkdir -p $out/lib $out/scratch
   pids=()
